@@ -47,6 +47,7 @@ fn generate(prop: &str, sink: &mut sink::Sink, rng: &mut rng::Rng, n: u64) -> bo
         "C07" => lang::generate(sink, rng, n, false, Some("o.c07")),
         "C08" => lang::generate(sink, rng, n, false, Some("o.c08")),
         "C09" => lang::generate(sink, rng, n, false, Some("o.c09")),
+        "C16" => c17::generate_c16(sink, rng, n),
         "C17" => c17::generate(sink, rng, n),
         "C13" => lang::generate(sink, rng, n, false, Some("o.c13")),
         "C10" => c10::generate(sink, rng, n),
